@@ -580,26 +580,42 @@ def elimRow (j i : Nat) (p : M33 α × M33 α) : Except Err (M33 α × M33 α) :
   let scale := aij /. ajj
   .ok (a.setRow i ((a.row i).axmy scale (a.row j)), inv.setRow i ((inv.row i).axmy scale (inv.row j)))
 
+/-- `best = j; for (k = j+1; k < n; k++) if (ABS(a[k][j]) > ABS(a[best][j])) best = k;` -/
+def pivotRow (j : Nat) (a : M33 α) : Nat :=
+  let best := j
+  let best := if j + 1 ≤ 2 ∧ bgt (cabs ((a.row (j + 1)).get j)) (cabs ((a.row best).get j)) then j + 1 else best
+  if j + 2 ≤ 2 ∧ bgt (cabs ((a.row (j + 2)).get j)) (cabs ((a.row best).get j)) then j + 2 else best
+
+/-- `if (best != j)` swap rows j and best of both matrices -/
+def swapStep (j : Nat) (p : M33 α × M33 α) : M33 α × M33 α :=
+  let best := pivotRow j p.1
+  if best != j then (p.1.swapRows j best, p.2.swapRows j best) else p
+
+/-- scale row j of both matrices so that `a[j][j]` is 1.0; every entry is guarded by `ref_math_divisible` -/
+def scaleRow (j : Nat) (p : M33 α × M33 α) : Except Err (M33 α × M33 α) :=
+  let pivot := (p.1.row j).get j
+  if !((p.1.row j).allDivisible pivot && (p.2.row j).allDivisible pivot) then .error .div_zero else
+  .ok (p.1.setRow j ((p.1.row j).divBy pivot), p.2.setRow j ((p.2.row j).divBy pivot))
+
+/-- eliminate column j: lower triangle first (`i = j+1 … 2`), then upper triangle (`i = 0 … j-1`) -/
+def elimOthers (j : Nat) (p : M33 α × M33 α) : Except Err (M33 α × M33 α) :=
+  match j with
+  | 0 => match elimRow 0 1 p with
+      | .error e => .error e
+      | .ok q => elimRow 0 2 q
+  | 1 => match elimRow 1 2 p with
+      | .error e => .error e
+      | .ok q => elimRow 1 0 q
+  | _ => match elimRow 2 0 p with
+      | .error e => .error e
+      | .ok q => elimRow 2 1 q
+
 /-- one trip of the `for (j = 0; j < n; j++)` loop of `ref_matrix_inv_gen` (n = 3):
     partial pivoting, scaling of row j, elimination of column j below then above -/
 def invStep (j : Nat) (p : M33 α × M33 α) : Except Err (M33 α × M33 α) :=
-  let (a, inv) := p
-  -- find the best lower row
-  let best := j
-  let best := if j + 1 ≤ 2 ∧ bgt (cabs ((a.row (j + 1)).get j)) (cabs ((a.row best).get j)) then j + 1 else best
-  let best := if j + 2 ≤ 2 ∧ bgt (cabs ((a.row (j + 2)).get j)) (cabs ((a.row best).get j)) then j + 2 else best
-  let (a, inv) := if best != j then (a.swapRows j best, inv.swapRows j best) else (a, inv)
-  -- scale row so a[j][j] is 1.0
-  let pivot := (a.row j).get j
-  if !((a.row j).allDivisible pivot && (inv.row j).allDivisible pivot) then .error .div_zero else
-  let a := a.setRow j ((a.row j).divBy pivot)
-  let inv := inv.setRow j ((inv.row j).divBy pivot)
-  -- eliminate lower triangle, then upper triangle
-  let others : List Nat := match j with
-    | 0 => [1, 2]
-    | 1 => [2, 0]
-    | _ => [0, 1]
-  others.foldlM (fun acc i => elimRow j i acc) (a, inv)
+  match scaleRow j (swapStep j p) with
+  | .error e => .error e
+  | .ok q => elimOthers j q
 
 /-- `ref_matrix_inv_gen(3, orig, inv)` -/
 def invGen3 (orig : M33 α) : Except Err (M33 α) :=
